@@ -8,7 +8,7 @@ def run(bindir, pid):
     if not os.path.exists(exe):
         return dict(problems=[], summary="factcheck not built")
     r = subprocess.run([exe, vlib.REPO, os.path.join(vlib.VERIF, "harness", "factcheck_expected.json")],
-                       stdout=subprocess.PIPE, stderr=subprocess.PIPE, text=True)
+                       stdout=subprocess.PIPE, stderr=subprocess.PIPE, text=True, errors="replace")
     if r.returncode not in (0, 1):
         return dict(problems=["factcheck failed to run: " + r.stderr[-500:]], summary=None)
     try:
